@@ -75,6 +75,11 @@ T_Fail == FailBook /\ ResetVars
 T_CreateNode == IsEv("CreateNode") /\ CreateNode(Ev.id, ToSet(Ev.labels)) /\ ObsOK /\ Same
 T_CreateEdge == IsEv("CreateEdge") /\ CreateEdge(Ev.id, Ev.s, Ev.d, Ev.t, Ok) /\ ObsOK /\ Same
 T_CreateEdgeStub == IsEv("CreateEdgeStub") /\ Ok /\ CreateEdgeStub(Ev.id, Ev.s, Ev.d, Ev.t) /\ ObsOK /\ Same
+T_CreateEdgeP == IsEv("CreateEdgeP") /\ CreateEdgeP(Ev.id, Ev.s, Ev.d, Ev.t, Ev.v, Ok) /\ ObsOK /\ Same
+T_CreateNodeStub == IsEv("CreateNodeStub") /\ CreateNodeStub(Ev.id, Ev.label) /\ ObsOK /\ Same
+T_SetColumnProp == IsEv("SetColumnProp") /\ SetColumnProp(Ev.n, Ev.v) /\ ObsOK /\ Same
+T_RemoveEdgeProp == IsEv("RemoveEdgeProp") /\ RemoveEdgeProp(Ev.e) /\ ObsOK /\ Same
+T_Clear == IsEv("Clear") /\ Clear /\ ObsOK /\ Same
 T_DeleteEdge ==
     /\ IsEv("DeleteEdge")
     /\ \/ DeleteEdge(Ev.e, Ok) /\ Same
@@ -94,6 +99,7 @@ T_RemoveLabel == IsEv("RemoveLabel") /\ RemoveLabel(Ev.n, Ev.label, Ok) /\ ObsOK
 T_SetEdgeProp == IsEv("SetEdgeProp") /\ SetEdgeProp(Ev.e, Ev.v, Ok) /\ ObsOK /\ Same
 
 TNext == \/ T_Fail \/ T_Reset \/ T_CreateNode \/ T_CreateEdge \/ T_CreateEdgeStub \/ T_DeleteEdge \/ T_DeleteNode
+         \/ T_CreateEdgeP \/ T_CreateNodeStub \/ T_SetColumnProp \/ T_RemoveEdgeProp \/ T_Clear
          \/ T_Compact \/ T_Finish \/ T_SetNodeProp \/ T_RemoveNodeProp \/ T_AddLabel \/ T_RemoveLabel \/ T_SetEdgeProp
 TSpec == TInit /\ [][TNext]_tvars
 
